@@ -220,14 +220,15 @@ storage_properties_set_dimension(struct StorageProperties* out,
 
     EXPECT(name, "Dimension name cannot be null.");
     EXPECT(bytes_of_name > 0, "Bytes of name must be positive.");
-    EXPECT(strlen(name) > 0, "Dimension name cannot be empty.");
+    EXPECT(name[0] != '\0', "Dimension name cannot be empty.");
     EXPECT(kind < DimensionTypeCount,
            "Invalid dimension type: %s.",
            dimension_type_as_string(kind));
 
     struct StorageDimension* dim = &out->acquisition_dimensions.data[index];
 
-    memset(dim, 0, sizeof(*dim)); // NOLINT
+    // releases the previous name, if any, and zeroes the record
+    storage_dimension_destroy(dim);
 
     struct String s = { .is_ref = 1,
                         .nbytes = bytes_of_name,
